@@ -3,7 +3,9 @@
 name=$1; prop=$2; tier=${3:-quick}
 cd /repo && git diff --quiet || { echo "/repo is dirty"; exit 2; }
 git -C /repo apply /verif/seeded/$name/patch.diff || exit 2
+cp /verif/coq/Gen/Consts.v /verif/.build/Consts.v.saved   # a seeded change may alter a generated constant
 cd /verif && timeout 3000 ./check $prop --tier $tier > /verif/.build/seedrun_$name.log 2>&1; rc=$?
 git -C /repo checkout -- .
+cp /verif/.build/Consts.v.saved /verif/coq/Gen/Consts.v
 v=$(grep -m1 "^VIOLATION" /verif/.build/seedrun_$name.log)
 echo "$name/$prop: exit=$rc $v"
